@@ -362,6 +362,11 @@ func (c02) Eval(c *Chooser, env *Env) *Outcome {
 			ro.ReuseLinter = true
 			ro.PriorRepo = mw.Repos[c.Int("world.priorrepo", len(mw.Repos))].Root
 			desc += ", on a Linter instance that linted repository " + ro.PriorRepo + " before"
+			if c.Weighted("world.prioroutfail", 1, 3) {
+				// ... while its output could not be written (a closed pipe): that call failed, this one must not care
+				ro.PriorOutFail = 1 + c.Int("world.prioroutfailat", 300)
+				desc += fmt.Sprintf(" and whose output writer failed after %d bytes during that call", ro.PriorOutFail-1)
+			}
 		}
 	case 6:
 		// another moment: the wall clock of the run differs by some minutes / hours / days
